@@ -54,6 +54,21 @@ theorem convert_ok_rules (h : HeadersIn) (ecp : Bool) (m u : Bytes)
       all_goals simp_all
 
 
+theorem convert_ok_method (h : HeadersIn) (m u : Bytes) (hc : convertPollMessageServer h = .ok m u) :
+    h.method = some m := by
+  obtain ⟨sid, eos, status, method, scheme, authority, path, hasProtocol, fields, over⟩ := h
+  unfold convertPollMessageServer at hc
+  simp only at hc ⊢
+  cases method with
+  | none => cases hc
+  | some meth =>
+    simp only at hc
+    cases hasProtocol <;> cases scheme <;> cases authority <;> cases path <;> cases status <;>
+      simp at hc
+    all_goals (repeat' (split at hc))
+    all_goals (try cases hc)
+    all_goals simp_all
+
 theorem getPseudo_method (p : Pseudo) : getPseudo p pMethod = p.method := by simp [getPseudo]
 theorem getPseudo_scheme (p : Pseudo) : getPseudo p pScheme = p.scheme := by
   simp [getPseudo, pMethod, pScheme]
